@@ -142,6 +142,53 @@ func (w *World) Send(i int, b []byte) StepObs {
 	return w.settle()
 }
 
+// SendUDP sends a datagram from peer i's socket to the server's real socket (receiver goroutine included).
+func (w *World) SendUDP(i int, b []byte) StepObs {
+	if !w.Dead {
+		if _, err := w.Peers[i].Conn.WriteToUDP(b, w.UPFAddr()); err != nil {
+			evid.Infra("send to UPF: %v", err)
+		}
+		alive, st := w.V.QuiesceUDP()
+		if !alive {
+			w.Dead = true
+		}
+		o := w.settle()
+		if strings.HasPrefix(st, "stuck") || st == "receiver-gone" {
+			o.State = st
+		}
+		return o
+	}
+	return w.settle()
+}
+
+// Dgram is one datagram of a batch.
+type Dgram struct {
+	Peer int
+	B    []byte
+}
+
+// SendUDPBatch sends several datagrams through the real socket back to back (they queue in order in the
+// server's socket) and waits once until all of them have been handled.
+func (w *World) SendUDPBatch(ds []Dgram) StepObs {
+	if !w.Dead {
+		for _, d := range ds {
+			if _, err := w.Peers[d.Peer].Conn.WriteToUDP(d.B, w.UPFAddr()); err != nil {
+				evid.Infra("send to UPF: %v", err)
+			}
+		}
+		alive, st := w.V.QuiesceUDP()
+		if !alive {
+			w.Dead = true
+		}
+		o := w.settle()
+		if strings.HasPrefix(st, "stuck") || st == "receiver-gone" {
+			o.State = st
+		}
+		return o
+	}
+	return w.settle()
+}
+
 // SendFrom delivers a datagram with an arbitrary source address.
 func (w *World) SendFrom(a net.Addr, b []byte) StepObs {
 	if !w.Dead {
